@@ -93,13 +93,17 @@ CLAIMED["C01"] = dict(
 
 CLAIMED["C16"] = dict(
     category="translation_validation", design="DESIGN.md §4 C16",
-    technique="Lean 4 proof that a well-scoped nested contraction tree computes the flat term (tree_flat, treeOK_sound) + per-run validation of every returned scheme by the Lean checker treeOK; scaling/limits recomputed independently",
+    technique="Lean 4 proof that a well-scoped nested contraction tree computes the flat term (tree_flat, treeOK_sound) + per-run validation of every returned scheme by the Lean checker treeOK; Lean model of the contracted/target split and of the scaling of a step (theorems incl. step_le_single) compared with every Contraction object the code constructs; limits recomputed independently",
     text="Every scheme returned by optimize_contractions / unoptimized_contraction that is explored is converted to a nested contraction "
          "tree and accepted only if the Lean function treeOK holds (same objects with multiplicity, each summed index exactly once, no "
          "index summed while it still occurs outside the subtree); treeOK_sound proves for all tensor values, orbital models and target "
          "assignments that the step-by-step evaluation equals the value of the term. Requested target order, per-step scaling, the limits "
-         "and the comparison with the single simultaneous contraction are recomputed by an oracle. Two genuine defects were repaired (fix: commits).",
-    note=TB + "Scheme->tree conversion and the scaling/limit oracle are python (harness/props/c16.py). Inputs are sampled.")
+         "and the comparison with the single simultaneous contraction are recomputed by an oracle. Bookkeeping: Adc.stepCT / stepScaling "
+         "(model of Contraction._determine_contracted_and_target / _determine_scaling) are compared with every Contraction object "
+         "constructed during the run; proved: contracted and target indices partition the operand indices, term targets / external "
+         "indices are never summed, total = sum of the per-space exponents, and step_le_single: a step over indices of the term never "
+         "scales worse than the single simultaneous contraction in the code's own (lexicographic) order. Two genuine defects were repaired (fix: commits).",
+    note=TB + "Scheme->tree conversion and the limit oracle are python (harness/props/c16.py). Inputs are sampled.")
 
 CLAIMED["C17"] = dict(
     category="translation_validation", design="DESIGN.md §4 C17",
@@ -127,14 +131,18 @@ CLAIMED["C13"] = dict(
 
 CLAIMED["C18"] = dict(
     category="translation_validation", design="DESIGN.md §4 C18",
-    technique="per-run validation of print->import->re-assume by the proved checker checkEquiv (tensor kind is part of a tensor's identity in the model) + exact text comparison; operator expressions compared as objects",
+    technique="Lean 4 round-trip theorems for the object grammar (index strings, tensor objects) about an executable model tied differentially to the printer/importer + per-run validation of print->import->re-assume by the proved checker checkEquiv + exact text comparison; operator expressions compared as objects",
     text="For every expression explored (synthetic incl. spins mixed inside one index group, numbered names, Coulomb integrals, symbolic "
          "denominators, fractions, sqrt prefactors; operator strings with NO groups; results of the derivation classes also after "
          "expand_antisym_eri / use_symbolic_denominators) str(e) is imported, the same assumptions are re-applied, and (i) the re-printed text "
          "must be identical, (ii) the imported expression must be accepted by checkEquiv as equal to the original, which by "
          "checkEquiv_sound means equal value for all models and - because kind/name/bk are part of a tensor's identity - the same tensor "
-         "kinds. One genuine defect repaired (fix:). Inputs are sampled; the Lean object-grammar theorem of DESIGN (obj_roundtrip) is not built.",
-    note=TB + "Operator expressions (F, Fd, NO) are compared as sympy objects and texts only. Only the default tensor-name configuration is exercised.")
+         "kinds. One genuine defect repaired (fix:). Inputs are sampled. Object grammar (proved, all inputs): the Lean model of the printer "
+         "and importer on characters (Adc/Latex.lean: Index._latex, tensor _latex, sympy's power suffix, split_idx_string, import_indices, "
+         "import_tensor incl. its brace-depth scanners) satisfies importIndices_printIdxs and importTensor_printTensor - every well-formed "
+         "index string / tensor object (one or two index groups, spin labels, numbered names, exponent) is restored exactly; the model is "
+         "compared with the code on printed texts, imports and malformed index strings on every run.",
+    note=TB + "Operator expressions (F, Fd, NO) are compared as sympy objects and texts only. Only the default tensor-name configuration is exercised. The grammar theorems cover single tensor objects and index strings; term/expression layout (prefactors, fractions, brackets, NO groups) is covered by the per-run validation only. The model uses ASCII digit/letter classes (Python's str.isdigit is Unicode-aware).")
 
 CLAIMED["C04"] = dict(
     category="translation_validation", design="DESIGN.md §4 C04",
@@ -223,7 +231,7 @@ CLAIMED["C02"] = dict(
          "evaluated with the integrals and wavefunction coefficients of explicit determinant-space RSPT (exact rationals, random "
          "canonical-HF models up to 8 spin orbitals) and must reproduce energies, amplitudes, vanishing RE residuals and "
          "expectation values exactly. (1) is unbounded in the Hamiltonian but enumerated in the order; (2) is exploration.",
-    note=TB + "Trusted: harness/recipes.py (operator-level statement of RSPT), harness/detspace.py (determinant-space linear algebra, self-tested). No Lean theorem connects the operator-level formulas with the determinant-space recursion (K14a of the design is not built); that link is explored numerically.")
+    note=TB + "Trusted: harness/recipes.py (operator-level statement of RSPT), harness/detspace.py (determinant-space linear algebra, self-tested). Spec level (AdcProofs/Props/RSPT.lean): in any vector space with a bilinear form, the order-by-order Schroedinger equation with intermediate normalisation implies the operator-level formulas used here (RSPT.energy, RSPT.amplitude, RSPT.residual, RSPT.expectation_value with the table of expand_norm_factor; norm_factor_series, coeff_list_prod for the order bookkeeping, whose tables are compared with gen_term_orders / expand_norm_factor on every run). Not proved: that the second-quantised H0, H1, psi(n) of recipes.py are the objects of that theorem (lifting lemma K12); that link is explored numerically.")
 
 CLAIMED["C03"] = dict(
     category="exploration", design="DESIGN.md §4 C03",
@@ -236,7 +244,7 @@ CLAIMED["C03"] = dict(
          "block(I,J) = transpose of block(J,I) in a real basis, M(no shift) - M(shift) = E(n) delta_IJ, and mvp_block_order = "
          "documented prefactors x block x amplitude vector, each for all Hamiltonians and amplitudes (checkEquiv_sound). "
          "block_order(0..5) equals n - (level_I + level_J).",
-    note=TB + "The spec-level Lean development of the design (isr_spec, isr_matrix_value, transpose_real) is not built: the tie of the derived expressions to explicit intermediate states is numerical (exact rationals, finitely many models). Trusted: harness/isr_oracle.py, harness/detspace.py. mp partitioning only; orders as enumerated.")
+    note=TB + "Spec level: isr_matrix_selfadjoint (AdcProofs/Props/IsrTranspose.lean) proves the transposition clause for every order at the level of the overlap / precursor-matrix series (any star ring), isr_orthonormal_series the orthonormality; the Lean objects isr_spec / isr_matrix_value (explicit intermediate states) are not built: the tie of the derived expressions to explicit intermediate states is numerical (exact rationals, finitely many models). Trusted: harness/isr_oracle.py, harness/detspace.py. mp partitioning only; orders as enumerated.")
 
 CLAIMED["C05"] = dict(
     category="exploration", design="DESIGN.md §4 C05",
